@@ -19,10 +19,13 @@
 package dag
 
 import (
+	"bytes"
 	"encoding/base64"
+	"errors"
 	"fmt"
 	"math"
 	"time"
+	"unicode"
 
 	"github.com/lestrrat-go/jwx/v2/jwa"
 	"github.com/lestrrat-go/jwx/v2/jwk"
@@ -36,6 +39,9 @@ func ParseTransaction(input []byte) (Transaction, error) {
 	message, err := jws.Parse(input)
 	if err != nil {
 		return nil, fmt.Errorf(unableToParseTransactionErrFmt, err)
+	}
+	if !isJWSSerialization(input) {
+		return nil, fmt.Errorf(unableToParseTransactionErrFmt, errors.New("not a JWS compact or JSON serialization"))
 	}
 	if len(message.Signatures()) == 0 {
 		return nil, transactionValidationError("JWS does not contain any signature")
@@ -66,6 +72,28 @@ func ParseTransaction(input []byte) (Transaction, error) {
 		}
 	}
 	return result, nil
+}
+
+// isJWSSerialization checks the framing of the input as RFC7515 defines it: the JSON serialization (an object), or the
+// compact serialization which is exactly three base64url segments without padding.
+// jws.Parse is more tolerant: it ignores everything after the third segment and accepts padded or standard base64 and
+// line breaks inside segments. Since a transaction's reference is the hash of its bytes, accepting those would give
+// one signed transaction any number of references (each admitted to the DAG as another transaction).
+func isJWSSerialization(input []byte) bool {
+	if trimmed := bytes.TrimLeftFunc(input, unicode.IsSpace); len(trimmed) > 0 && trimmed[0] == '{' {
+		return true
+	}
+	segments := bytes.Split(input, []byte{'.'})
+	if len(segments) != 3 {
+		return false
+	}
+	for _, segment := range segments {
+		decoded, err := base64.RawURLEncoding.DecodeString(string(segment))
+		if err != nil || base64.RawURLEncoding.EncodeToString(decoded) != string(segment) {
+			return false
+		}
+	}
+	return true
 }
 
 func transactionValidationError(format string, args ...interface{}) error {
